@@ -97,3 +97,42 @@ VARIANTS += [
       "            self.__collection_sc.clear()\n", "silent", "",
       "both lists are None under the same constructor condition"),
 ]
+
+VARIANTS += [
+    V("per-case-guard-inverted", O,
+      "            if not (0.0 <= z <= 1e100):\n                return 1e200",
+      "            if (0.0 <= z <= 1e100):\n                return 1e200",
+      "fire", "D11.7"),
+    V("simulation-steps-and-time-swapped", O,
+      "start, equations, controller, x, controller_dim, steps, time)",
+      "start, equations, controller, x, controller_dim, time, steps)",
+      "fire", "D11.7"),
+    V("score-uses-control-dim-as-state-dim", O,
+      "                the_ode, state_dim, state_dims_in_j, gamma)",
+      "                the_ode, controller_dim, state_dims_in_j, gamma)",
+      "fire", "D11.7"),
+    V("case-not-recorded", O,
+      "                collector(diff_from_ode(the_ode, state_dim))",
+      "                pass", "fire", "D11.7"),
+    V("le-aggregate-without-expm1", O,
+      "        return float(expm1(np.log1p(results, results).mean()))",
+      "        return float(np.log1p(results, results).mean())", "fire",
+      "D11.7"),
+    V("compaction-keeps-old-chunks", O, "        clsc.clear()\n", "", "fire",
+      "D11.8", "the concatenation would be appended to its own parts: the "
+      "data doubles without any evaluation"),
+    V("compaction-cross-appends", O, "        cldf.append(df)",
+      "        cldf.append(sc)", "fire", "D11.8"),
+    V("collector-pair-swapped", O,
+      "        self.__collection_sc.append(data[0])\n"
+      "        self.__collection_df.append(data[1])",
+      "        self.__collection_sc.append(data[1])\n"
+      "        self.__collection_df.append(data[0])", "fire", "D11.6"),
+    V("collections-when-unsupported", O,
+      "            = [] if supports_model_mode else None\n        #: the "
+      "collection of differential",
+      "            = None if supports_model_mode else []\n        #: the "
+      "collection of differential", "fire", "D11.6"),
+    V("silent-aggregate-np-mean", O, "        return float(results.mean())",
+      "        return float(np.mean(results))", "silent", ""),
+]
